@@ -392,7 +392,8 @@ Lemma ev_method ctx a x name args ns s :
   ev_list ctx args s1 (fun vs s2 =>
   match ns, v with
   | true, VNil => Done VNil s2
-  | _, _ => lift (aloc a) s2 (fetch_fn fe v name) (fun id => do_call fe (aloc a) false id v vs s2)
+  | _, _ => if ns && fetch_fn_zero v name then Done VNil s2
+            else lift (aloc a) s2 (fetch_fn fe v name) (fun id => do_call fe (aloc a) false id v vs s2)
   end)).
 Proof. reflexivity. Qed.
 
@@ -1191,7 +1192,7 @@ Proof.
   - rewrite !ev_slice. repeat sim_step.
   - (* method *) rewrite !ev_method. sim_step; [sim_step|].
     apply ev_list_sim; [assumption|assumption|]. intros vs t' t St.
-    destruct nilsafe, v; repeat sim_step.
+    destruct nilsafe, v; cbn [andb]; try (destruct (fetch_fn_zero _ _)); repeat sim_step.
   - (* function *) rewrite !ev_function. apply ev_list_sim; [assumption|assumption|]. intros vs t' t St. repeat sim_step.
   - (* builtin *) rewrite !ev_builtin.
     destruct H as [|x' x r' r Hx Hr]; [destruct b; sim_step|].
